@@ -363,8 +363,22 @@ def run(fx, rep):
     rb = fx.body(PARSE + 'parse_raw_string')
     rep.analysed(rb)
     be = backslash_entry(rb)
-    rep.check(be is None, 'R1', 'raw/backslash-processing', rb.loc(), 'raw strings never test for a backslash',
-              'parse_raw_string has a backslash branch: `r"a\\""` loses the backslash although raw literals perform no escape processing')
+    if be is None:
+        rep.ok('R1', 'raw/no-backslash-branch', rb.loc(), 'raw strings never test for a backslash')
+    else:
+        # the raw decoder has a backslash branch: interpret it for every ASCII follower; a raw literal must keep both characters
+        for cp in [chr(c) for c in range(0x20, 0x7f)] + ['\u00e9']:
+            outs = classify(rb, cp)
+            want = {'push[U+005C, U+%04X]' % ord(cp), 'push[U+005C]'}        # (second form: the backslash was the last character)
+            extra = sorted(outs - want)
+            missing = sorted(want - outs)
+            key = 'raw/backslash+U+%04X' % ord(cp)
+            if not extra and not missing:
+                rep.ok('R1', key, rb.loc(), 'backslash and follower are both kept')
+            else:
+                rep.violation('R1', key + '/' + ';'.join(['extra:' + e for e in extra] + ['missing:' + m_ for m_ in missing]).replace(' ', ''), rb.loc(),
+                              'raw literal, backslash followed by %r: the decoder %s%s although raw literals perform no escape processing' %
+                              (cp, ('can also produce ' + ', '.join(extra)) if extra else '', (' and never produces ' + ', '.join(missing)) if missing else ''))
     # ---------------- R3 delimiter shapes of bytes literals
     rep.rule('R3', 'bytes literals: every delimiter shape the lexer admits (raw prefix, single or triple quotes) is stripped by the visitor; raw bytes are not escape-processed')
     from .grammar import Grammar
